@@ -105,6 +105,13 @@ func newInst(s *vdrv.Scenario) vdrv.Instance {
 	case "atomicf":
 		in.f = adder.NewFloat64Adder(adder.AtomicF64AdderType)
 	}
+	if n := s.OptInt("pglen", 0); n > 0 {
+		if in.l != nil {
+			adder.VerifPregrow(in.l, n, s.OptInt("pgcap", n), uint64(s.OptInt("pgmask", 0)))
+		} else {
+			adder.VerifPregrow(in.f, n, s.OptInt("pgcap", n), uint64(s.OptInt("pgmask", 0)))
+		}
+	}
 	pos := 0
 	fastrand.SetSource(func() uint32 {
 		if pos < len(s.Prefill) {
